@@ -194,8 +194,17 @@ func WorkerMain(args []string) {
 	if profile {
 		runtime.GC()
 		runtime.GC()
-		recs := make([]runtime.MemProfileRecord, 1<<16)
-		n, ok := runtime.MemProfile(recs, true)
+		var recs []runtime.MemProfileRecord
+		n, ok := runtime.MemProfile(nil, true)
+		for tries := 0; tries < 5; tries++ {
+			recs = make([]runtime.MemProfileRecord, n+n/4+1000)
+			if n, ok = runtime.MemProfile(recs, true); ok {
+				break
+			}
+		}
+		if !ok {
+			journal("X profile-incomplete %d", n)
+		}
 		if ok {
 			for _, r := range recs[:n] {
 				if r.AllocObjects == 0 {
@@ -280,6 +289,7 @@ func runBatch(ctx *core.Ctx, mode, dir, tag string, items []WorkItem, profile bo
 	remaining := items
 	attempt := 0
 	timeouts := map[int]int{}
+	var allSites []AllocSite // accumulated over all attempts (a worker restart must not lose earlier sites)
 	for len(remaining) > 0 {
 		attempt++
 		batchPath := filepath.Join(dir, fmt.Sprintf("%s-%d.gob", tag, attempt))
@@ -338,6 +348,8 @@ func runBatch(ctx *core.Ctx, mode, dir, tag string, items []WorkItem, profile bo
 				if len(parts) >= 3 {
 					out[id].Alloc, _ = strconv.ParseUint(parts[2], 10, 64)
 				}
+			case "X":
+				rep.Inconclusive("allocation profile of worker " + tag + " could not be read completely")
 			case "T":
 				timedOut = true
 			case "G":
@@ -354,9 +366,10 @@ func runBatch(ctx *core.Ctx, mode, dir, tag string, items []WorkItem, profile bo
 			}
 		}
 		if profile {
-			sort.Slice(sites, func(i, j int) bool { return sites[i].Bytes > sites[j].Bytes })
+			allSites = append(allSites, sites...)
+			sort.Slice(allSites, func(i, j int) bool { return allSites[i].Bytes > allSites[j].Bytes })
 			for _, r := range out {
-				r.Sites = sites
+				r.Sites = allSites
 			}
 		}
 		if runErr == nil {
@@ -376,7 +389,10 @@ func runBatch(ctx *core.Ctx, mode, dir, tag string, items []WorkItem, profile bo
 				// first overrun: re-run this item alone before judging
 				delete(out, openID)
 				idx := indexOfItem(remaining, openID)
-				single := runBatch(ctx, mode, dir, fmt.Sprintf("%s-retry%d", tag, openID), remaining[idx:idx+1], false, rep)
+				single := runBatch(ctx, mode, dir, fmt.Sprintf("%s-retry%d", tag, openID), remaining[idx:idx+1], profile, rep)
+				if sr := single[openID]; sr != nil {
+					allSites = append(allSites, sr.Sites...)
+				}
 				if sr := single[openID]; sr != nil {
 					out[openID] = sr
 				}
